@@ -241,6 +241,8 @@ pub struct RunResult {
 /// Hash seed (S1) under which the next executions run; every execution runs on a fresh OS thread
 /// after reseeding the shim, so leg B varies hash seeds together with schedules.
 pub static HASH_SEED: std::sync::atomic::AtomicU64 = std::sync::atomic::AtomicU64::new(0);
+/// How argument maps are constructed during the next executions (ops::set_arg_route).
+pub static ARG_ROUTE: std::sync::atomic::AtomicU64 = std::sync::atomic::AtomicU64::new(0);
 
 pub fn execute(sc: &Scenario, cases: &[Case], kind: Kind, seed: u64, max_steps: usize) -> RunResult {
     let hs = HASH_SEED.load(std::sync::atomic::Ordering::SeqCst);
@@ -252,6 +254,7 @@ pub fn execute(sc: &Scenario, cases: &[Case], kind: Kind, seed: u64, max_steps: 
 }
 
 fn execute_here(sc: &Scenario, cases: &[Case], kind: Kind, seed: u64, max_steps: usize) -> RunResult {
+    ops::set_arg_route(ARG_ROUTE.load(std::sync::atomic::Ordering::SeqCst) as u8);
     let trace = Arc::new(Mutex::new(Trace::default()));
     let sink: Arc<Mutex<Vec<Obs>>> = Arc::new(Mutex::new(Vec::new()));
     let scheduler = SimScheduler::new(kind, seed, Arc::clone(&trace));
@@ -561,7 +564,7 @@ fn leg_b(o: &Opts) -> i32 {
         }
     };
     let sz = sizes(&o.tier);
-    let all = build(&CorpusSpec { seed: o.seed, generated: sz.generated, mutated: sz.mutated, layout: sz.layout }, &o.repo, &o.verif);
+    let all = build(&CorpusSpec { seed: o.seed, generated: sz.generated, mutated: sz.mutated, layout: sz.layout, literal: sz.literal }, &o.repo, &o.verif);
     // small programs (by text length) that the golden run accepted for at least one argument map
     let mut idx: Vec<usize> = (0..all.len())
         .filter(|i| (0..all[*i].args.len()).any(|a| matches!(golden.get(&(*i, a, false)), Some(Outcome::Ok { .. }))))
@@ -599,6 +602,7 @@ fn leg_b(o: &Opts) -> i32 {
                         .collect()],
                 };
                 HASH_SEED.store(mix(*gi as u64 ^ o.seed) | 1, std::sync::atomic::Ordering::SeqCst);
+                ARG_ROUTE.store(0, std::sync::atomic::Ordering::SeqCst);
                 let r = execute(&sc, &cases, Kind::RandomWalk { switch_permille: 0 }, 0, 50_000_000);
                 match judge(&sc, &r, &reference, 50_000_000) {
                     Ok(None) => rep.count("standin_crosschecks_equal_to_real_dependency", 1),
@@ -625,6 +629,8 @@ fn leg_b(o: &Opts) -> i32 {
         let sc = draw_scenario(&mut rng, &cases);
         let run_hash_seed = rng.next() | 1;
         HASH_SEED.store(run_hash_seed, std::sync::atomic::Ordering::SeqCst);
+        let run_arg_route = rng.below(4) as u64;
+        ARG_ROUTE.store(run_arg_route, std::sync::atomic::Ordering::SeqCst);
         // schedule 0: never switch voluntarily -> sequential step count
         let base = execute(&sc, &cases, Kind::RandomWalk { switch_permille: 0 }, rng.next(), 50_000_000);
         let base_steps = base.trace.steps.max(10);
@@ -757,7 +763,7 @@ fn leg_b(o: &Opts) -> i32 {
                         "verif_seed": o.seed, "run": run, "schedule": si,
                         "programs": cases.iter().map(|c| c.to_json()).collect::<Vec<_>>(),
                         "scenario_ops": fsc.to_json(),
-                        "decisions": fdec, "max_steps": max_steps, "hash_seeds": [run_hash_seed.to_string()],
+                        "decisions": fdec, "max_steps": max_steps, "hash_seeds": [run_hash_seed.to_string()], "arg_route": run_arg_route,
                         "expected": fv.expected, "observed": fv.observed, "minimised": info,
                         "original": {"scenario_ops": sc.to_json(), "scheduler": kind_json(&kind)},
                     });
@@ -814,6 +820,7 @@ fn replay(o: &Opts) -> i32 {
     }
     let reference = |c: usize, a: usize, d: bool| table.get(&(c, a, d)).cloned();
     HASH_SEED.store(hs, std::sync::atomic::Ordering::SeqCst);
+    ARG_ROUTE.store(doc.get("arg_route").and_then(|a| a.as_u64()).unwrap_or(0), std::sync::atomic::Ordering::SeqCst);
     let r = execute(&sc, &cases, Kind::Replay { decisions }, 0, max_steps);
     for ob in &r.obs {
         println!("task {} op {} {} -> {} {}", ob.task, ob.idx, ob.what, ob.got.key(), if let Outcome::Panic(p) = &ob.got { p.clone() } else { String::new() });
